@@ -183,6 +183,7 @@ inductive InpTrans (c c' : Cfg) : Prop
   | screenReq (scr : Nat) (args : Option Nat) (sk : Bool) (text : Str) :
       Requested c c' (freshIH (.scr scr) sk (some scr)) text →
       (∀ j, (c'.A.screens[j]?.getD {}).inputArgs = if scr = j then args else (c.A.screens[j]?.getD {}).inputArgs) →
+      (∃ rest, c.code = .getInput2 scr args :: rest) → c.retPromptNone = false →
       InpTrans c c'
   | blockingReq (scr : Nat) (sk : Bool) (text : Str) :
       Requested c c' (freshIH (.im scr) sk none) text → c'.A.screens = c.A.screens → InpTrans c c'
@@ -210,6 +211,7 @@ theorem step_inpTrans (P : Prog) (c : Cfg) : InpTrans c (final (step P c)) := by
       cases hp : c.retPromptNone
       · rw [step_getInput2_some P c scr args rest hc hp]
         refine .screenReq scr args _ _ (Requested_congr (requested_of_newIH _ _ _ _ _ _) rfl rfl rfl rfl rfl rfl rfl rfl rfl) ?_
+          ⟨rest, hc⟩ hp
         intro j
         rw [startRequest_screens]
         show ((c.A.setScr scr fun s => { s with inputArgs := args }).screens[j]?.getD {}).inputArgs = _
